@@ -6,6 +6,7 @@ import (
 	"os"
 	"path/filepath"
 	"strconv"
+	"strings"
 )
 
 // ChecksumResult contains page checksum verification results
@@ -144,30 +145,26 @@ func VerifyDataDirChecksums(dataDir string) (*DataDirChecksumResult, error) {
 				continue
 			}
 			
-			// Check if it's a numeric filenode
+			// Check if it's a numeric filenode, optionally followed by a
+			// decimal segment number (e.g., "12345", "12345.1", "12345.12")
 			name := f.Name()
-			if _, err := strconv.ParseUint(name, 10, 32); err != nil {
-				// Check for segment files (e.g., "12345.1")
-				if len(name) > 2 && name[len(name)-2] == '.' {
-					base := name[:len(name)-2]
-					if _, err := strconv.ParseUint(base, 10, 32); err != nil {
-						continue
-					}
-				} else {
+			base, suffix, isSegment := strings.Cut(name, ".")
+			if _, err := strconv.ParseUint(base, 10, 32); err != nil {
+				continue
+			}
+			segNum := uint32(0)
+			if isSegment {
+				n, err := strconv.ParseUint(suffix, 10, 32)
+				if err != nil {
 					continue
 				}
+				segNum = uint32(n)
 			}
 			
 			filePath := filepath.Join(dbPath, f.Name())
 			data, err := os.ReadFile(filePath)
 			if err != nil || len(data) < PageSize {
 				continue
-			}
-			
-			// Determine segment number from filename
-			segNum := uint32(0)
-			if idx := len(name) - 1; idx > 0 && name[idx-1] == '.' {
-				segNum = uint32(name[idx] - '0')
 			}
 			
 			fileResult := VerifyFileChecksums(data, segNum)
